@@ -100,6 +100,43 @@ def load_exempt():
 NARROW = re.compile(r"read_[ui](8|16)\b|read_[ui](8|16)_le|field u(8|16)\.")
 
 
+_BITS = {"u8": 8, "i8": 8, "u16": 16, "i16": 16, "u32": 32, "i32": 32, "u64": 64, "i64": 64, "usize": 64, "isize": 64, "u128": 128, "i128": 128}
+
+
+def _widened_signed(f, ft, ops):
+    """`i64::from(a) - i64::from(b)` with a, b of at most 32 bits (or `a as i64 - b as i64`): the checked subtraction exists in MIR
+    but cannot fire"""
+    du = ft.du if getattr(ft, "du", None) is not None else mirg.DefUse(f)
+    for o in ops:
+        l = op_local(o)
+        if l is None:
+            if mirg.op_int(o) is None:
+                return False
+            continue
+        ty = f.crate.ty(f.mir["locals"][l][0]) or ""
+        if ty not in ("i64", "i128", "isize"):
+            return False
+        srcs = []
+        stack, seen = [l], set()
+        while stack:
+            x = stack.pop()
+            if x in seen:
+                continue
+            seen.add(x)
+            for _b, k_, p_ in du.defs.get(x, []):
+                if k_ == "assign" and p_[2][0] == "use" and op_local(p_[2][1]) is not None and not pproj(p_[2][1][1]):
+                    stack.append(op_local(p_[2][1]))
+                elif k_ == "assign" and p_[2][0] == "cast" and op_local(p_[2][2]) is not None:
+                    srcs.append(f.crate.ty(f.mir["locals"][op_local(p_[2][2])][0]) or "?")
+                elif k_ == "call" and re.search(r"convert::From<.*>>::from$|::from$", mirg.callee(p_) or "") and len(p_["a"]) == 1 and op_local(p_["a"][0]) is not None:
+                    srcs.append(f.crate.ty(f.mir["locals"][op_local(p_["a"][0])][0]) or "?")
+                else:
+                    srcs.append("?")
+        if not srcs or any(_BITS.get(s_, 999) >= _BITS[ty] for s_ in srcs):
+            return False
+    return True
+
+
 def run(ctx):
     prog = ctx.prog
     crates = [prog.crate(c) for c in CRATES]
@@ -186,7 +223,7 @@ def run(ctx):
                     if not why:
                         ctx.ok(R_alloc, inst)
                         continue
-                    san = ft.sanitised(a, bb)
+                    san = ft.sanitised(a, bb, lower_ok=False)
                     if not san and NARROW.search(why) and "→" not in why.split("read")[-1][:0]:
                         # a count read as u8/u16 bounds the allocation to 64 Ki elements
                         if re.search(r"read read_[ui](8|16)", why):
@@ -229,6 +266,9 @@ def run(ctx):
                     continue
                 ops = t["ops"]
                 whys = [ft.operand_tainted(o) for o in ops]
+                if any(whys) and opk == "Sub" and _widened_signed(f, ft, ops):
+                    ctx.ok(R_arith, {"fn": path, "op": opk, "line": t["ln"], "note": "signed subtraction carried out wider than both operands were read (iN::from / as iN of narrower integers): cannot overflow"})
+                    continue
                 if not any(whys):
                     ctx.ok(R_arith, {"fn": path, "op": opk, "line": t["ln"], "tainted": False}) if len(ctx.samples) < 300 else ctx.rules[R_arith].__setitem__("obligations", ctx.rules[R_arith]["obligations"] + 1) or ctx.rules[R_arith].__setitem__("discharged", ctx.rules[R_arith]["discharged"] + 1)
                     continue
@@ -242,6 +282,11 @@ def run(ctx):
                 for o, w in zip(ops, whys):
                     if w:
                         san = san or ft.sanitised(o, bb, zero_test=(opk == "Sub" and o is ops[0] and mirg.op_int(ops[1]) == 1))
+                if san and opk == "Sub" and mirg.op_int(ops[0]) is None and mirg.op_int(ops[1]) is None and not san.startswith("derivation passes") and not san.startswith("dominating zero test"):
+                    # two variable operands: a check on one of them (or on a relative) says nothing about their order —
+                    # the evidence must compare the two with each other
+                    san2 = ft.ordered_before(ops[0], ops[1], bb)
+                    san = san2
                 if san:
                     ctx.ok(R_arith, {"fn": path, "op": opk, "line": t["ln"], "sanitised_by": san})
                     continue
